@@ -58,9 +58,39 @@ type NoName struct {
 	Label   string
 }
 
+// Three distinct types that share package path, name and String() (declared
+// in different function scopes), with different layouts and tags: anything
+// the library remembers about a type must be remembered per reflect.Type.
+func localServerA() reflect.Type {
+	type Server struct {
+		Host string
+		Port int `bcl:"p"`
+		Name string
+	}
+	return reflect.TypeOf(Server{})
+}
+func localServerB() reflect.Type {
+	type Server struct {
+		Port   int
+		Weight float64 `bcl:"p"`
+		Host   string  `bcl:"addr"`
+	}
+	return reflect.TypeOf(Server{})
+}
+func localServerC() reflect.Type {
+	type Server struct {
+		Name string
+		Addr string `bcl:"host"`
+		Host int    `bcl:"port"`
+		Sub  Leaf   `bcl:"leaf"`
+	}
+	return reflect.TypeOf(Server{})
+}
+
 var namedTypes = []reflect.Type{
 	reflect.TypeOf(Inner{}), reflect.TypeOf(Leaf{}), reflect.TypeOf(HttpServer{}),
 	reflect.TypeOf(Outer{}), reflect.TypeOf(Tagged{}), reflect.TypeOf(NoName{}),
+	localServerA(), localServerB(), localServerC(),
 }
 
 // ---- shapes ----
